@@ -6,10 +6,11 @@
                               allSubscriptions() to subscribe() of another registry" in a GIVEN order
                               (rebuild() is the instance: own listings, own order, fresh structures)
      live_count              number of live registrations + subscription entries providing p
+     as_bop                  the storage operation (and registry) an operation of Model/RegSys.v stands for
    Executable definitions only. *)
 From Coq Require Import List Arith Bool.
 Import ListNotations.
-From ZI Require Import Model.Ro Model.Adapter.
+From ZI Require Import Model.Ro Model.Adapter Model.Lookup Model.RegSys.
 
 Inductive bop :=
 | BRegister (req : list (option spec)) (p : spec) (n : name) (v : option value)
@@ -49,3 +50,14 @@ Definition sprov (kv : skey * value) : option spec := snd (fst kv).
 Definition live_count (r : reg) (p : spec) : nat :=
   length (filter (fun kv => Nat.eqb (aprov kv) p) (allRegistrations r))
   + length (filter (fun kv => ospec_eqb (sprov kv) (Some p)) (allSubscriptions r)).
+
+(* the projection of the registry-system operations (Model/RegSys.rop) onto storage operations *)
+Definition as_bop (o : rop) : option (nat * bop) :=
+  match o with
+  | ORegister r req p n v => Some (r, BRegister req p n v)
+  | OUnregister r req p n v => Some (r, BUnregister req p n v)
+  | OSubscribe r req p v => Some (r, BSubscribe req p v)
+  | OUnsubscribe r req p v => Some (r, BUnsubscribe req p v)
+  | ORebuild r => Some (r, BRebuild)
+  | _ => None
+  end.
